@@ -17,7 +17,7 @@ EXTRA_JUDGES = C12.EXTRA_JUDGES
 
 def gen(rng, tier):
     import gen as G
-    cases = E.gen_cases(rng, 14 if tier == 'quick' else 200, 0)
+    cases = E.gen_cases(rng, 14 if tier == 'quick' else 200, 1)
     # the shipped example examples/dfa1.dfa has the alphabet {0, 1}: DFA-to-regexp exercise over such an alphabet (known finding F14)
     for _ in range(3 if tier == 'quick' else 30):
         d = G.random_dfa(rng, rng.randint(2, 3), '01')
